@@ -10,6 +10,8 @@ Records are opaque bodies (decoding is C05/C11).
 -/
 import Hts.Lemmas.BamFile
 import Hts.Lemmas.CRRun
+import Hts.Lemmas.BamOverLTS
+import Hts.Props.C02
 namespace Hts.Props.C13
 open Hts.Model.Bgzf Hts.Spec.Flat
 
@@ -223,6 +225,50 @@ theorem chunkreader_exact {F : File} (hwf : WF F) (r0 : Reader) (s : State) (hsi
       ((cr.readAll ns).2 = some .eof → (cr.readAll ns).1 = expected F xs) ∧
       ((∀ n ∈ ns, 0 < n) → readBound F xs < ns.length → (cr.readAll ns).2 = some .eof) :=
   chunkReader_spec hwf hsim xs hv ho
+
+/-! ### rd > 1
+
+`Model/BamOverLTS.lean` writes `bam.NewReader`'s header reads, `Read` (`newBuffer` with its two `io.ReadFull`s and
+the limit test), `SetChunk` and the read loop as CLIENTS of the bgzf reader (`Client`: a computation that uses the
+reader only through Read/Seek and what they return; `cReadN_run` etc.: over the sequential reader they are the
+functions of `Model/BamChunks.lean`).  `C02.readahead_client_refines_sequential` then carries the two main statements
+over the read-ahead protocol: every rd, every script of the consumer (without `nexts`), every path of the LTS
+(every interleaving with the worker), no faults. -/
+
+section OverProtocol
+open Hts.Model Hts.Model.ReadAhead
+
+/-- **Sequential pass with rd > 1.**  Opening the file and reading `|bs| + 1` times over the read-ahead protocol
+returns, in every execution, every record with the chunk `sequential_pass` states, then `io.EOF`. -/
+theorem sequential_pass_rd {F : File} {hs : List Nat} {bs : List (List UInt8)} (hB : BamFile F hs bs)
+    (r0 : Reader) (h0r : Reader.new F = .ok r0) (br0 : BamReader) (h0 : BamReader.new F hs = .ok br0)
+    (rd : Nat) (script : List ReadAhead.Op) (hn : ReadAhead.Op.nexts ∉ script)
+    (res : Option (List (List UInt8 × Chunk) × Option Err) × Reader) (t : ReadAhead.State)
+    (h : Over ⟨rd, chainOf F, script, false⟩ F ((cSeqPass hs (bs.length + 1) r0).prog r0)
+      (ReadAhead.init ⟨rd, chainOf F, script, false⟩) res t) :
+    res.1 = some (bs.zip (recChunks (layoutOf F) (sumNat hs) bs), some .eof) := by
+  rw [Hts.Props.C02.readahead_client_refines_sequential F hB.wf r0 h0r _ rd script hn res t h,
+    cSeqPass_run h0r hs _ br0 h0, sequential_pass hB br0 h0]
+
+/-- **Replay with rd > 1.**  Opening the file, `SetChunk` to the span of the records `M` (chunks as noted by the
+sequential pass) and reading over the read-ahead protocol: in every execution `SetChunk` succeeds and exactly the
+records `M` come back, each with its chunk, then `io.EOF`. -/
+theorem chunk_replay_rd {F : File} {hs : List Nat} {bs : List (List UInt8)} (hB : BamFile F hs bs)
+    (r0 : Reader) (h0r : Reader.new F = .ok r0) (br0 : BamReader) (h0 : BamReader.new F hs = .ok br0)
+    (A M B : List (List UInt8)) (hbs : bs = A ++ M ++ B) (hM : M ≠ [])
+    (rd : Nat) (script : List ReadAhead.Op) (hn : ReadAhead.Op.nexts ∉ script)
+    (res : Option (Option Err × List (List UInt8 × Chunk) × Option Err) × Reader) (t : ReadAhead.State)
+    (h : Over ⟨rd, chainOf F, script, false⟩ F
+      ((cReplay hs (spanChunk (((seqChunks br0 bs.length).drop A.length).take M.length)) (M.length + 1) r0).prog r0)
+      (ReadAhead.init ⟨rd, chainOf F, script, false⟩) res t) :
+    res.1 = some (none, M.zip (((seqChunks br0 bs.length).drop A.length).take M.length), some .eof) := by
+  obtain ⟨_, s, hs0, _⟩ := bam_new hB.wf hs br0 h0 hB.hdr
+  have hr := chunk_replay hB br0 h0 A M B hbs hM br0 s hs0
+  simp only at hr
+  rw [Hts.Props.C02.readahead_client_refines_sequential F hB.wf r0 h0r _ rd script hn res t h,
+    cReplay_run h0r hs _ _ br0 h0, hr.1, hr.2]
+
+end OverProtocol
 
 /-! ### Non-vacuity -/
 
